@@ -112,11 +112,42 @@ fn case<R: Ent>(rng: &mut StdRng, t: &mut Tracer, st: &mut Stats, cid: usize, ma
     }
 }
 
+/// spec -> impl: TLC-enumerated unit-triangular matrices (upper as given, lower by transposition) with a right-hand side
+fn enumerated(t: &mut Tracer, st: &mut Stats, cid: &mut usize, cases: &[Value]) {
+    let p2 = pool(2);
+    for c in cases {
+        *cid += 1; st.cases += 1;
+        t.emit(&json!({"op": "newcase", "res": "ok", "ring": <i64 as Ent>::ring(), "case": *cid})); st.events += 1;
+        let d: Vec<Vec<i64>> = c["a"].as_array().unwrap().iter().map(|r| r.as_array().unwrap().iter().map(|x| x.as_i64().unwrap()).collect()).collect();
+        let yv: Vec<i64> = c["y"].as_array().unwrap().iter().map(|x| x.as_i64().unwrap()).collect();
+        let up = sp_from_dense(&d, 3, 3, &|_, _| false);
+        let y = SpMat::from_dense_data((3, 2), yv.iter().flat_map(|x| [*x, 1 - *x]));
+        for (tt, a) in [(TriangularType::Upper, up.clone()), (TriangularType::Lower, up.transpose())] {
+            emit::<i64>(t, st, "solve", json!({"t": tname(tt), "a": sp_json(&a), "y": sp_json(&y), "left": false, "id": format!("s{}", tname(tt)), "threads": 2}), |e| { e["x"] = sp_json(&p2.install(|| solve_triangular(tt, &a, &y))); });
+            emit::<i64>(t, st, "solve", json!({"t": tname(tt), "a": sp_json(&a), "y": sp_json(&y.transpose()), "left": true, "id": format!("l{}", tname(tt)), "threads": 2}), |e| { e["x"] = sp_json(&p2.install(|| solve_triangular_left(tt, &a, &y.transpose()))); });
+            emit::<i64>(t, st, "inv", json!({"t": tname(tt), "a": sp_json(&a), "id": format!("i{}", tname(tt)), "threads": 2}), |e| { e["x"] = sp_json(&p2.install(|| inv_triangular(tt, &a))); });
+            // the same matrix as [A B; C D] with r = 2 (its leading block is unit triangular)
+            emit::<i64>(t, st, "schur", json!({"t": tname(tt), "m": sp_json(&a), "r": 2, "id": format!("c{}", tname(tt)), "threads": 2}), |e| {
+                let sch = Schur::from_partial_triangular(tt, &a, 2, true);
+                let [a0, b0, _, _] = a.divide4((2, 2));
+                let x = solve_triangular(tt, &a0, &b0);
+                let (s, ts, tg) = sch.disassemble(); let (ts, tg) = (ts.unwrap(), tg.unwrap());
+                e["s"] = sp_json(&s); e["x"] = sp_json(&x);
+                e["tr"] = json!({"with": true, "fsrc": sp_json(&ts.forward_mat()), "bsrc": sp_json(&ts.backward_mat()), "ftgt": sp_json(&tg.forward_mat()), "btgt": sp_json(&tg.backward_mat())});
+            });
+        }
+    }
+}
+
 pub fn record(a: &Args) {
     let mut t = Tracer::create(&a.out);
     let mut st = Stats::default();
     let (ncases, maxn) = if a.thorough() { (80, 9) } else { (10, 5) };
     let mut cid = 0;
+    let en: Vec<Value> = a.inp.as_ref().map(|p| read_ndjson(p)).unwrap_or_default();
+    let step = if a.thorough() { 1 } else { 9 };
+    let picked: Vec<Value> = en.into_iter().step_by(step).collect();
+    enumerated(&mut t, &mut st, &mut cid, &picked);
     macro_rules! run { ($t:ty, $salt:expr) => {{ let mut rng = a.rng($salt); for _ in 0..ncases { cid += 1; case::<$t>(&mut rng, &mut t, &mut st, cid, maxn); } }} }
     run!(i64, 1); run!(Ratio<i64>, 2); run!(FF<5>, 3); run!(GaussInt<i64>, 4);
     let n = t.finish();
